@@ -7,6 +7,7 @@
 #include <PhQ/Direction.hpp>
 #include <PhQ/PlanarDirection.hpp>
 #include <set>
+#include <sstream>
 #include <unordered_set>
 #include "engine.hpp"
 
@@ -380,8 +381,39 @@ static Verdict c16_math(const Case& c) {
   Verdict V; V.cls = std::string(ntinfo(nt).name) + "->" + ntinfo(to).name + ";" + tn[shape]; V.nontrivial = inexact || ntinfo(to).mant > ntinfo(nt).mant; return V;
 }
 
+// ================================================================================================ C15 for the math types
+template <class T> static void print_lib(int shape, const LD* a, std::string out[5], std::vector<std::string>& num) {
+  auto go = [&](const auto& x) { out[0] = x.Print(); out[1] = x.JSON(); out[2] = x.XML(); out[3] = x.YAML(); std::ostringstream s; s << x; out[4] = s.str(); };
+  if (shape == 2) go(mk2<T>(a)); else if (shape == 3) go(mk3<T>(a)); else if (shape == 6) go(mk6<T>(a)); else go(mk9<T>(a));
+  for (int i = 0; i < shape; i++) num.push_back(PhQ::Print<T>((T)a[i]));
+}
+static Verdict c15_math(const Case& c) {
+  const int nt = (int)c.i[0], n = (int)c.i[1];
+  LD a[9]; for (int i = 0; i < n; i++) a[i] = round_to(nt, c.r[(size_t)i]);
+  std::string got[5]; std::vector<std::string> num;
+  if (nt == 0) print_lib<float>(n, a, got, num); else if (nt == 1) print_lib<double>(n, a, got, num); else print_lib<long double>(n, a, got, num);
+  static const char* c2[] = {"x", "y"}; static const char* c3[] = {"x", "y", "z"}; static const char* c6[] = {"xx", "xy", "xz", "yy", "yz", "zz"}; static const char* c9[] = {"xx", "xy", "xz", "yx", "yy", "yz", "zx", "zy", "zz"};
+  const char* const* cn = n == 2 ? c2 : n == 3 ? c3 : n == 6 ? c6 : c9;
+  std::string want[5];
+  want[0] = "("; for (int i = 0; i < n; i++) { if (i) want[0] += ((n == 6 && (i == 3 || i == 5)) || (n == 9 && (i == 3 || i == 6))) ? "; " : ", "; want[0] += num[(size_t)i]; } want[0] += ")"; want[4] = want[0];
+  want[1] = "{"; for (int i = 0; i < n; i++) { if (i) want[1] += ","; want[1] += std::string("\"") + cn[i] + "\":" + num[(size_t)i]; } want[1] += "}";
+  for (int i = 0; i < n; i++) want[2] += std::string("<") + cn[i] + ">" + num[(size_t)i] + "</" + cn[i] + ">";
+  want[3] = "{"; for (int i = 0; i < n; i++) { if (i) want[3] += ","; want[3] += std::string(cn[i]) + ":" + num[(size_t)i]; } want[3] += "}";
+  static const char* fn[] = {"Print", "JSON", "XML", "YAML", "operator<<"}; static const char* tn[] = {"", "", "PlanarVector", "Vector", "", "", "SymmetricDyad", "", "", "Dyad"};
+  for (int f = 0; f < 5; f++) if (got[f] != want[f]) return Verdict::fail(fmt("%s<%s>::%s = \"%s\", the stated layout is \"%s\"", tn[n], ntinfo(nt).name, fn[f], got[f].c_str(), want[f].c_str()));
+  Verdict V; V.cls = std::string(ntinfo(nt).name) + ";" + tn[n]; V.nontrivial = true; for (int i = 0; i < n; i++) for (int j = i + 1; j < n; j++) if (a[i] == a[j]) V.nontrivial = false;
+  return V;
+}
+
 int main(int argc, char** argv) {
   std::vector<Sub> subs;
+  {
+    Sub s; s.name = "c15.math"; s.property = "C15"; s.instances = 12; s.n_quick = 2000; s.n_thorough = 50000; s.run = c15_math;
+    s.gen = [](int inst) { static const int shapes[4] = {2, 3, 6, 9}; const int shape = shapes[inst % 4], nt = inst / 4; const int w = nt == 0 ? 20 : 60;
+      return rc::gen::map(gen_reals(shape, nt, -w, w, kNeg | kZero), [=](const std::vector<LD>& v) { Case c; c.i = {nt, shape}; c.r = v; return c; }); };
+    s.rule = "Print / JSON / XML / YAML / operator<< of PlanarVector, Vector, SymmetricDyad, Dyad x 3 numeric types against the stated layouts assembled from PhQ::Print(component); non-trivial: components pairwise distinct";
+    subs.push_back(s);
+  }
   {
     Sub s; s.name = "c09.grid"; s.property = "C09"; s.instances = N_OPS * 3; s.n_quick = 1; s.n_thorough = 1; s.exhaustive = true;
     s.gen = [](int inst) { Case c; c.i = {inst / N_OPS, inst % N_OPS}; return rc::gen::just(c); };
